@@ -174,7 +174,10 @@ func (w *W) close() {
 // workerMain: vcheck worker <prop> <tier> <seed> <indexfile> <outfile> <journal>
 func workerMain(args []string) {
 	prop, tier := args[0], args[1]
-	debug.SetMaxStack(128 << 20) // a runaway recursion dies in a second instead of after 1 GB
+	// Go's default stack limit (1 GB) is kept: a stack overflow reported by a worker is one a user would get
+	if mb, err := strconv.Atoi(os.Getenv("VERIF_MAXSTACK_MB")); err == nil && mb > 0 {
+		debug.SetMaxStack(mb << 20) // diagnosis only
+	}
 	seed, _ := strconv.ParseUint(args[2], 10, 64)
 	idxData, err := os.ReadFile(args[3])
 	if err != nil {
